@@ -16,7 +16,7 @@ import collections
 import itertools
 
 from checks._reads import (CONSUMES_QUERY, CONSUMES_REF, OPS, START, GeneStub, expected_depth, fn_body, fold_parse_read,
-                           loop_over, read_stub, sample_read)
+                           fold_load_sam, loop_over, read_stub, sample_read)
 from sa.cfg import cfg_of
 from sa.fold import Evaluator, Obj, Raised, Unfoldable
 from sa.guards import find_calls
@@ -55,18 +55,26 @@ def observations(norm, muts):
 def r1_r2_r5(repo, res):
     f = repo.func("sam::Sample._parse_read")
     res.analysed(f)
-    bins = None
-    bq = [n for n in ast.walk(f) if isinstance(n, ast.FunctionDef) and n.name == "bin_quality"]
-    if bq:
-        try:
-            bins = [Evaluator({"q": q}).run(fn_body(bq[0]))[1] for q in range(0, 61)]
-        except (Unfoldable, Raised) as e:
-            res.err("C06.R5", f"bin_quality outside folding language: {e}")
-            return
-        mono = all(bins[i] <= bins[i + 1] for i in range(60)) and all(0 <= b <= 40 for b in bins) and len(set(bins)) >= 4
-        res.ob("C06.R5", f, bq[0], mono, expected="quality binning is monotone non-decreasing with values in 0..40",
-               found=f"bins {sorted(set(bins))}", clause="each observation keeps its read's (binned) base quality", key="bin-monotone")
-    binf = (lambda q: bins[min(60, int(q))]) if bins else (lambda q: q)
+    # the binning of both quality fields is read off the routine itself (one-base reads, one input varied at a time): the
+    # first field must depend on the mapping quality only, the second on the base quality only
+    try:
+        by_q = [tuple(fold_parse_read(repo, [(0, 1)], "A", [q], mq=17)[2][START][0]) for q in range(0, 61)]
+        by_m = [tuple(fold_parse_read(repo, [(0, 1)], "A", [23], mq=m)[2][START][0]) for m in range(0, 61)]
+    except (Unfoldable, Raised, IndexError, KeyError, TypeError) as e:
+        res.err("C06.R5", f"_parse_read outside folding language on one-base reads: {e}")
+        return
+    bins = [t[1] for t in by_q]
+    mbins = [t[0] for t in by_m]
+    fields_ok = len({t[0] for t in by_q}) == 1 and len({t[1] for t in by_m}) == 1 and len(set(bins)) > 1 and len(set(mbins)) > 1
+    res.ob("C06.R5", f, f, fields_ok, expected="observation = (value of the mapping quality only, value of the base quality only)",
+           found="ok" if fields_ok else f"varying the base quality changes field 0: {len({t[0] for t in by_q}) > 1}; varying the mapping quality changes field 1: {len({t[1] for t in by_m}) > 1}",
+           clause="each observation keeps its read's mapping quality and (binned) base quality", key="layout:fields")
+    for label, bb in (("base", bins), ("mapping", mbins)):
+        mono = all(bb[i] <= bb[i + 1] for i in range(60)) and all(0 <= b <= 60 for b in bb) and len(set(bb)) >= 4
+        res.ob("C06.R5", f, f, mono, expected=f"{label} quality binning is monotone non-decreasing with at least four levels",
+               found=f"bins {sorted(set(bb))}", clause="each observation keeps its read's (binned) base quality", key=f"bin-monotone:{label}")
+    binf = lambda q: bins[min(60, int(q))]  # noqa
+    mbinf = lambda q: mbins[min(60, int(q))]  # noqa
     for k, name in OPS.items():
         cigar, seq, qual = sample_read(k)
         try:
@@ -119,7 +127,7 @@ def r1_r2_r5(repo, res):
             qi = 0
             for j, p in enumerate(want_pos):
                 o = per[p][0][1] if per.get(p) else None
-                want_t = (binf(37), binf(qual[j]))
+                want_t = (mbinf(37), binf(qual[j]))
                 if o is None or tuple(o) != want_t:
                     lay_ok = False
                     detail = f"position {p}: observation {o}, expected {want_t}"
@@ -129,7 +137,7 @@ def r1_r2_r5(repo, res):
                    key=f"layout:{name}")
         if k == 2:
             # deleted bases carry the read's mapping quality and the quality of the last base before the deletion
-            want_t = (binf(37), binf(qual[1]))
+            want_t = (mbinf(37), binf(qual[1]))
             got_t = [tuple(per[p][0][1]) if per.get(p) else None for p in range(START + 2, START + 5)]
             res.ob("C06.R5", f, f, all(t == want_t for t in got_t),
                    expected=f"deleted-base observation = (binned mapping quality, binned quality of the preceding base) = {want_t}",
@@ -137,7 +145,7 @@ def r1_r2_r5(repo, res):
         if k == 1 and ins:
             import statistics
 
-            want_t = (binf(37), binf(statistics.mean(qual[2:5])))
+            want_t = (mbinf(37), binf(statistics.mean(qual[2:5])))
             res.ob("C06.R5", f, f, tuple(ins[0][2]) == want_t,
                    expected=f"insertion observation = (binned mapping quality, binned mean quality of the inserted bases) = {want_t}",
                    found=str(tuple(ins[0][2])), key="layout:I")
@@ -322,7 +330,7 @@ def r3(repo, res):
 def r4(repo, res):
     f = repo.func("sam::Sample._load_sam")
     res.analysed(f)
-    loop = loop_over(f, lambda n: any(isinstance(c, ast.Call) and call_name(c).endswith("_parse_read") for c in ast.walk(n)))
+    loop = f
     reads = {
         "eligible": read_stub([(0, 4)], seq="ACGT", quals=[30] * 4),
         "unaligned": read_stub(None, seq="ACGT"),
@@ -333,22 +341,23 @@ def r4(repo, res):
         "outside-region": read_stub([(0, 4)], seq="ACGT", name="far"),
         "soft-clipped": read_stub([(4, 2), (0, 2)], seq="ACGT", quals=[30] * 4),
         "barcoded": read_stub([(0, 4)], seq="ACGT", quals=[30] * 4, tags={"BX": "b1", "MI": 7}),
+        "secondary": read_stub([(0, 4)], seq="ACGT", quals=[30] * 4, flag=0x100),
     }
-    want_parsed = {"eligible", "soft-clipped", "barcoded"}  # every hard-clipped shape is skipped
+    want_parsed = {"eligible", "soft-clipped", "barcoded", "secondary"}  # every hard-clipped shape is skipped
     rows = {}
     try:
         for label, rd in reads.items():
-            calls = []
-
-            def pr(*a, **kw):
-                calls.append(a)
-                return ((0, 0, 0), [])
-
-            me = Obj(_parse_read=pr, gene=Obj(get_wide_region=lambda: "REGION"), _prefix="", reads=None, _dump_reads=[], is_long_read=False)
-            env = {"self": me, "iter": [rd], "norm": {}, "muts": {}, "debug": None}
-            ev = Evaluator(env, funcs={"_in_region": lambda region, read, prefix: read.query_name != "far"})
-            kind, val = ev.run([loop])
-            rows[label] = calls
+            for indexed in (True, False, None):
+                kind, val, me, calls = fold_load_sam(repo, [rd], in_region=lambda region, read, prefix: read.query_name != "far", indexed=indexed)
+                if kind != "return":
+                    res.ob("C06.R4", f, f, False, expected=f"{label} read (index: {indexed}): the loader completes", found=f"{kind} {val}", key=f"loader:{label}")
+                    continue
+                if indexed is True:
+                    rows[label] = calls
+                elif len(calls) != len(rows.get(label, [])):
+                    res.ob("C06.R4", f, f, False, expected=f"{label} read: the same reads are parsed with and without an index", found=f"indexed {len(rows.get(label, []))}, not indexed {len(calls)}",
+                           key=f"index-independent:{label}")
+            calls = rows.get(label, [])
             if label in want_parsed and len(calls) == 1:
                 a = calls[0]
                 good = (a[1] == rd.reference_start and a[2] == rd.cigartuples and a[3] == rd.query_sequence and a[6] == rd.mapping_quality
@@ -357,7 +366,7 @@ def r4(repo, res):
                     res.ob("C06.R4", f, loop, False, expected="the read's start, CIGAR, bases, mapping quality and base qualities are handed to the parser in that order",
                            found=str(a[:8]), key=f"parser-args:{label}")
     except (Unfoldable, Raised) as e:
-        res.err("C06.R4", f"read loop of _load_sam outside folding language: {e}")
+        res.err("C06.R4", f"_load_sam outside folding language: {e}")
         return
     got = {l for l, c in rows.items() if c}
     res.ob("C06.R4", f, loop, got == want_parsed,
